@@ -87,7 +87,7 @@ func main() {
 	}
 
 	// simkit packages
-	for _, sub := range []string{"", "simstore"} {
+	for _, sub := range []string{"", "simstore", "simnet"} {
 		dir := filepath.Join(*verif, "simkit", sub)
 		ents, err := os.ReadDir(dir)
 		must(err)
